@@ -101,7 +101,15 @@ def run(rep, tier):
     c = f.crate("pest")
     names, consts, byname = names_rule(rep, c)
     lookup(rep, c, byname)
+    # "every advertised name resolves" in the configuration without default features as well: the tables and the list of
+    # advertised names are not feature-gated, so the lookup must not be either
+    f2 = facts.facts("nomemchr")
+    c2 = f2.crate("pest") if f2 is not None else None
+    if c2 is not None:
+        rep.configs = ["default", "nomemchr"]
+        lookup(rep, c2, byname, "@nomemchr")
     access(rep, f, c, names)
+    opaque(rep, f)
     if names:
         partition(rep, c, names, consts)
 
@@ -197,8 +205,8 @@ def names_rule(rep, c):
     return names, consts, byname
 
 
-def lookup(rep, c, byname):
-    r = rep.rule("C16.LOOKUP", 3,
+def lookup(rep, c, byname, sfx=""):
+    r = rep.rule("C16.LOOKUP" + sfx, 3,
                  "unicode::by_name finds every key of the three BY_NAME tables: it is a linear scan comparing the "
                  "upper-cased key, or a binary search over tables that are sorted in the order it compares by")
     fn = c.fn(U + "::by_name")
@@ -269,6 +277,53 @@ def lookup(rep, c, byname):
             r.violation("scan:unfolded", where(x), "by_name compares the requested name with a table key without folding "
                         "the key's case: the tables spell keys in mixed case, the advertised names are upper case, so "
                         "those names do not resolve")
+
+
+FRAGMENT_TESTS = ("strip_suffix", "strip_prefix", "ends_with", "starts_with", "contains", "find", "rfind", "split_once",
+                  "rsplit_once", "trim_end_matches", "trim_start_matches")
+
+
+def name_fragment_tests(body):
+    """calls that look inside a string for a fragment (suffix / prefix / substring tests) with a str receiver"""
+    out = []
+    for x in walk(body):
+        if kind(x) == "MethodCall" and x["m"] in FRAGMENT_TESTS and str(x.get("path", "")).startswith(
+                ("core::str::", "alloc::string::String", "alloc::str::")):
+            out.append(x)
+    return out
+
+
+def opaque(rep, f):
+    r = rep.rule("C16.OPAQUE", 0,
+                 "rule and property names are opaque keys to the optimizer shared by both back-ends: no pass of "
+                 "pest_meta::optimizer looks inside a name for a prefix, suffix or substring.  A rewrite that reasons "
+                 "from the spelling of a name (`X_MARK` is a kind of `MARK`) changes what a choice of built-in "
+                 "properties matches - QUOTATION_MARK and PREPENDED_CONCATENATION_MARK are binary properties, disjoint "
+                 "from the category group MARK - while the functions and by_name still give the table's answer")
+    probe = {"k": "Block", "stmts": [], "expr": {"k": "MethodCall", "m": "strip_suffix", "path": "core::str::<impl str>::strip_suffix",
+                                                 "recv": {"k": "Path"}, "args": []}}
+    if len(name_fragment_tests(probe)) != 1:
+        r.lost("self-test of the fragment-test detector")
+        return
+    meta = f.crate("pest_meta")
+    if meta is None:
+        r.lost("pest_meta facts")
+        return
+    n = 0
+    for b in meta.bodies:
+        if not str(b.get("path", "")).startswith("pest_meta::optimizer::") or "::tests::" in str(b.get("path", "")) \
+                or b.get("body") is None or b.get("exp"):
+            continue
+        n += 1
+        for x in name_fragment_tests(b["body"]):
+            key = "%s:%s" % (b["path"].replace("pest_meta::optimizer::", ""), x["m"])
+            r.violation(key, where(x), "optimizer pass %s tests a name with `%s`: a rewrite decided by a fragment of an "
+                        "identifier's spelling treats unrelated properties as related (e.g. MARK | QUOTATION_MARK rewritten to "
+                        "MARK), so the built-in rule no longer matches what pest::unicode::NAME and by_name answer"
+                        % (b["path"].split("::")[-1], hirq.expr_text(x)[:50]))
+    r.note("%d optimizer functions scanned" % n)
+    if n < 10:
+        r.lost("functions of pest_meta::optimizer (found %d)" % n)
 
 
 def access(rep, f, c, names):
